@@ -46,12 +46,13 @@ THEOREMS['C02'] = ['FB.C02_rolledBack_frame', 'FB.C02_rolledBack_files', 'FB.C02
                    'FB.Backups.restoreOne_self', 'FB.Backups.restoreOne_other', 'FB.Backups.backUp_file',
                    'FB.Rollback.rollBack_restores_files', 'FB.Rollback.removeNew_spec', 'FB.Rollback.restoreAll_file_from',
                    'FB.Rollback.rmEmpty_removes', 'FB.Rollback.restoreAll_dir_from']
-THEOREMS['C14'] = ['FB.C14_fault_surfaces', 'FB.C02_spec_build_raises', 'FB.C02_rolledBack_files']
+THEOREMS['C14'] = ['FB.C14_fault_surfaces', 'FB.C02_spec_build_raises', 'FB.C02_rolledBack_files', 'FB.MakeDirs.makeDirs_error',
+                   'FB.Rollback.rollBack_restores_files']
 THEOREMS['C03'] = ['FB.C03_impl_build', 'FB.C03_impl_buildGo', 'FB.C03_impl_run_frame', 'FB.replayOp_frame', 'FB.C03_run_frame',
                    'FB.C12_preClean_frame', 'FB.C02_rolledBack_files', 'FB.C12_impl_clean_is_preClean']
 THEOREMS['C16'] = ['FB.Codec.decode_encode', 'FB.Codec.decodeOps_encodeOps', 'FB.Codec.read_write', 'FB.Codec.replayOp_strip',
                    'FB.Codec.replayOps_strip', 'FB.Codec.isEqual_textRT', 'FB.Codec.textRT_of_wf']
-THEOREMS['C10'] = ['FB.C10_success', 'FB.C10_failure', 'FB.C10_setup']
+THEOREMS['C10'] = ['FB.C10_success', 'FB.C10_failure', 'FB.C10_setup', 'FB.MakeDirs.makeDirs_error', 'FB.MakeDirs.loop_error']
 THEOREMS['C12'] = ['FB.C12_preClean_frame', 'FB.C12_clean_noop_without_cache', 'FB.C12_clean_idempotent',
                    'FB.C12_impl_clean_is_preClean', 'FB.BuildDirs.preClean_gone_iff', 'FB.BuildDirs.preClean_isFile_iff',
                    'FB.BuildDirs.preClean_isDir_iff']
@@ -565,12 +566,28 @@ def bulk_rollback_probe(tier, rep):
     return problems
 
 
+def _c10_after(tier, rep):
+    for q in symlink_probe(tier, rep)[:2]:
+        rep.violation('symlink', {'property': 'C10', 'kind': 'failing-input', 'what': q}, note=json.dumps(q, default=str)[:250])
+    # _make_dirs on its own, with an OSError at every mkdir position: nothing may be left behind (oracle), and the
+    # method must do what FB.MakeDirs says (tie)
+    from . import mdcheck
+    probs = mdcheck.run(tier, rep)
+    for q in [x for x in probs if x.get('oracle')][:2]:
+        rep.violation('makedirs', {'property': 'C10', 'kind': 'failing-input', 'what': q}, note=json.dumps(q, default=str)[:250])
+    tie = [x for x in probs if not x.get('oracle')]
+    rep.count('correspondence_disagreements_makedirs', len(tie))
+    if tie and not rep.violations:
+        rep.violation('makedirs_tie', {'property': 'C10', 'kind': 'correspondence-broken',
+                                       'no_longer_checks': 'FB.MakeDirs (makeDirs_error: a failing _make_dirs leaves nothing behind) describes FileBuilder._make_dirs',
+                                       'what': tie[0]}, note='%s: %s' % (tie[0]['what'], json.dumps(tie[0].get('case'))[:160]), no_input=True)
+
+
 def check_C10(tier):
     # "... also when creating those directories, or moving the old file aside, itself fails": a batch of injected faults
     return run_hist_prop('C10', tier, 10, 500, 30000, families=[gen.scen_nested_failure, gen.scen_swap, gen.scen_stale_dir, gen.scen_longname, gen.scen_file_becomes_parent],
                          per_family=(80, 2000), p_fail=0.1, faults=((4, 100), (40, 2000), 110),
-                         _after=lambda rep: [rep.violation('symlink', {'property': 'C10', 'kind': 'failing-input', 'what': q},
-                                                           note=json.dumps(q, default=str)[:250]) for q in symlink_probe(tier, rep)[:2]])
+                         _after=lambda rep: _c10_after(tier, rep))
 
 
 def check_C12(tier):
